@@ -12,6 +12,8 @@
 import GSV.RealInst
 import GSV.Model.Transform
 import GSV.Lemmas.Transform
+import Mathlib.MeasureTheory.Measure.Lebesgue.Basic
+import Mathlib.MeasureTheory.Function.SpecialFunctions.Basic
 namespace GSV.Props.C19
 open GSV GSV.Transc GSV.Model.Transform GSV.Lemmas.Transform MeasureTheory
 
@@ -155,15 +157,6 @@ theorem uquad_default_bounds (mean var : ℝ) (hv : 0 ≤ var) :
 
 /-! ## Box-Cox -/
 
-theorem lmbda_ne_zero {l : ℝ} (h : lmbdaIsZero l = false) : l ≠ 0 := by
-  intro h0
-  simp only [lmbdaIsZero, fabs_real, lit1em8, decide_eq_false_iff_not, not_le, h0, abs_zero] at h
-  norm_num at h
-
-theorem maxZero_of_nonneg {x : ℝ} (h : 0 ≤ x) : maxZero x = x := by
-  simp only [maxZero, Nat.cast_zero]
-  rw [if_neg (not_lt.mpr h)]
-
 /-- **Box-Cox inverts the Box-Cox normalizer**: `array_boxcox(BoxCox(λ).normalize(y), λ) = y` for every `y > 0`
     and every `λ` (both branches of `isclose(λ, 0)`). -/
 theorem boxcox_inverts_normalizer (l y : ℝ) (hy : 0 < y) : boxcox l 0 (bcNormalize l y) = y := by
@@ -211,62 +204,6 @@ theorem boxcox_warns_iff (l s : ℝ) (f : List ℝ) :
   · intro hh; by_contra hc; exact hh (if_neg hc)
 
 /-! ## 'arithmetic' thresholds -/
-
-theorem sortVals_perm (vals : List ℝ) : (sortVals vals).Perm vals := List.mergeSort_perm _ _
-
-theorem sortVals_sorted (vals : List ℝ) : (sortVals vals).Pairwise (· ≤ ·) := by
-  have := List.pairwise_mergeSort (le := fun a b : ℝ => decide (a ≤ b))
-    (fun a b c hab hbc => by simp only [decide_eq_true_eq] at *; exact le_trans hab hbc)
-    (fun a b => by simp only [Bool.or_eq_true, decide_eq_true_eq]; exact le_total a b) vals
-  exact this.imp (fun hab => by simpa using hab)
-
-theorem midpoints_length (l : List ℝ) : (midpoints l).length = l.length - 1 := by
-  induction l with
-  | nil => rfl
-  | cons a t ih =>
-    match t with
-    | [] => rfl
-    | b :: t' => simp only [midpoints, List.length_cons, ih]; omega
-
-theorem midpoints_getElem (l : List ℝ) (i : ℕ) (hi : i < (midpoints l).length) :
-    (midpoints l)[i] = (l[i + 1]'(by rw [midpoints_length] at hi; omega) + l[i]'(by rw [midpoints_length] at hi; omega)) / 2 := by
-  induction l generalizing i with
-  | nil => simp [midpoints] at hi
-  | cons a t ih =>
-    match t with
-    | [] => simp [midpoints] at hi
-    | b :: t' =>
-      cases i with
-      | zero => simp [midpoints]
-      | succ j =>
-        simp only [midpoints, List.getElem_cons_succ]
-        rw [ih j (by simpa [midpoints] using hi)]
-        rfl
-
-theorem midpoints_gt_head {b : ℝ} {t : List ℝ} (hs : (b :: t).Pairwise (· < ·)) : ∀ y ∈ midpoints (b :: t), b < y := by
-  induction t generalizing b with
-  | nil => intro y hy; simp [midpoints] at hy
-  | cons c t' ih =>
-    intro y hy
-    have hbc : b < c := (List.pairwise_cons.mp hs).1 c (by simp)
-    simp only [midpoints, List.mem_cons, Nat.cast_ofNat] at hy
-    rcases hy with rfl | hy
-    · linarith
-    · exact lt_trans hbc (ih (List.pairwise_cons.mp hs).2 y hy)
-
-theorem midpoints_ascending {l : List ℝ} (hs : l.Pairwise (· < ·)) : (midpoints l).Pairwise (· < ·) := by
-  induction l with
-  | nil => simp [midpoints]
-  | cons a t ih =>
-    match t with
-    | [] => simp [midpoints]
-    | b :: t' =>
-      simp only [midpoints, Nat.cast_ofNat]
-      have hab : a < b := (List.pairwise_cons.mp hs).1 b (by simp)
-      refine List.pairwise_cons.mpr ⟨?_, ih (List.pairwise_cons.mp hs).2⟩
-      intro y hy
-      have := midpoints_gt_head (List.pairwise_cons.mp hs).2 y hy
-      linarith
 
 /-- **Arithmetic thresholds**: `array_discrete(…, thresholds="arithmetic")` works on the sorted values
     (a sorted permutation of `values`) and uses the midpoints of neighbouring sorted values as thresholds;
@@ -318,10 +255,6 @@ noncomputable def uquadCdf (a b y : ℝ) : ℝ :=
 noncomputable def lognormalCdf (Φ : ℝ → ℝ) (m s y : ℝ) : ℝ :=
   if y ≤ 0 then 0 else Φ ((Real.log y - m) / s)
 
-theorem toUniform_eq (m v low high x : ℝ) :
-    toUniform Φ m v low high x = Φ ((x - m) / Real.sqrt v) * (high - low) + low := by
-  simp [toUniform, standardize]
-
 /-- **Uniform**: a normal marginal `N(m, v)` pushed through `array_to_uniform(mean=m, var=v, low, high)` has the
     uniform cdf on `[low, high]`. -/
 theorem uniform_cdf (h : IsStdNormalCdf Φ Q) [IsProbabilityMeasure P] {m v low high : ℝ}
@@ -341,16 +274,6 @@ theorem uniform_cdf (h : IsStdNormalCdf Φ Q) [IsProbabilityMeasure P] {m v low 
     refine ⟨div_pos (by linarith) hd, (div_lt_one hd).mpr (by linarith), fun u _ _ => ?_⟩
     rw [le_div_iff₀ hd]
     constructor <;> intro hh <;> linarith
-
-theorem toArcsin_eq (m v : ℝ) (a b : Option ℝ) (x : ℝ) :
-    toArcsin Φ m v a b x = uniformToArcsin (a.getD (arcsinDefaultA m v)) (b.getD (arcsinDefaultB m v))
-      (Φ ((x - m) / Real.sqrt v)) := by
-  simp [toArcsin, toUniform, standardize, lit00, lit10]
-
-theorem toUquad_eq (m v : ℝ) (a b : Option ℝ) (x : ℝ) :
-    toUquad Φ m v a b x = uniformToUquad (a.getD (uquadDefaultA m v)) (b.getD (uquadDefaultB m v))
-      (Φ ((x - m) / Real.sqrt v)) := by
-  simp [toUquad, toUniform, standardize, lit00, lit10]
 
 /-- **Arcsine**: `array_to_arcsin(mean=m, var=v, a, b)` (bounds given or defaulted) turns a normal marginal `N(m, v)`
     into the arcsine law on `[a', b']` (the effective bounds), provided `a' < b'`. -/
@@ -475,13 +398,6 @@ theorem zinnharvey_order (h : IsStdNormalCdf Φ Q) {m v x₁ x₂ : ℝ} (hv : 0
 
 /-! ## 'equal' thresholds -/
 
-theorem equalThresholds_length (m v : ℝ) (n : ℕ) : (equalThresholds Q m v n).length = n - 1 := by
-  simp [equalThresholds]
-
-theorem equalThresholds_getElem (m v : ℝ) (n i : ℕ) (hi : i < (equalThresholds Q m v n).length) :
-    (equalThresholds Q m v n)[i] = m + Real.sqrt v * Q (((i + 1 : ℕ) : ℝ) / (n : ℝ)) := by
-  simp [equalThresholds]
-
 theorem equalThresholds_ascending (h : IsStdNormalCdf Φ Q) {m v : ℝ} {n : ℕ} (hv : 0 < v) :
     (equalThresholds Q m v n).Pairwise (· < ·) := by
   have hs : 0 < Real.sqrt v := Real.sqrt_pos.mpr hv
@@ -577,7 +493,9 @@ theorem wrapper_input_process (c : Cfg ℝ) (keep : Bool) (raw : ℝ)
     preProcess c keep (storedField c raw) = usedMean c true keep + raw := by
   simp only [storedField, preProcess, postProcess, usedMean, Bool.false_eq_true, ↓reduceIte, add_sub_cancel_right, hinv,
     Bool.true_and, Nat.cast_zero]
-  cases keep <;> simp [lit00]
+  cases keep
+  · simp [lit00]
+  · simp [add_comm]
 
 /-- without processing the wrappers insist on the default configuration (no normalizer, no trend), in which the
     stored field is `mean + raw` and `usedMean = fld.mean` -/
@@ -636,53 +554,6 @@ example (r m : ℝ) : (NormKind.lognormal : NormKind ℝ).normalize ((NormKind.l
 
 /-! ## stored-field names -/
 
-theorem lookup_set_self (st : FState ℝ) (n : String) (d : List ℝ) : (st.set n d).lookup n = some d := by
-  induction st with
-  | nil => simp [FState.set, FState.lookup]
-  | cons p t ih =>
-    obtain ⟨k, v⟩ := p
-    by_cases hk : (k == n) = true
-    · simp [FState.set, FState.lookup, hk]
-    · simp [FState.set, FState.lookup, hk, ih]
-
-theorem lookup_set_other (st : FState ℝ) (n n' : String) (d : List ℝ) (hne : n' ≠ n) :
-    (st.set n d).lookup n' = st.lookup n' := by
-  have hnn : (n == n') = false := by simpa using (Ne.symm hne)
-  induction st with
-  | nil => simp [FState.set, FState.lookup, hnn]
-  | cons p t ih =>
-    obtain ⟨k, v⟩ := p
-    by_cases hk : (k == n) = true
-    · have hkn : k = n := by simpa using hk
-      have : (k == n') = false := by rw [hkn]; exact hnn
-      simp [FState.set, FState.lookup, hk, hnn, this]
-    · by_cases hk' : (k == n') = true
-      · simp [FState.set, FState.lookup, hk, hk']
-      · simp [FState.set, FState.lookup, hk, hk', ih]
-
-theorem commit_spec (reserved : List String) (st : FState ℝ) (store : Store) (field : String) (out : List ℝ) :
-    let r := commit reserved st store field out
-    (∀ e, r.2 = .error e → r.1 = st) ∧
-    (∀ o, r.2 = .ok o → o = out ∧
-      match store with
-      | .no => r.1 = st
-      | .yes => r.1.lookup field = some out ∧ ∀ n', n' ≠ field → r.1.lookup n' = st.lookup n'
-      | .name n => r.1.lookup n = some out ∧ ∀ n', n' ≠ n → r.1.lookup n' = st.lookup n') := by
-  have key : ∀ (b : Bool) (n : String),
-      let r : FState ℝ × Except String (List ℝ) := if b = true then (st, .error "ValueError") else (st.set n out, .ok out)
-      (∀ e, r.2 = .error e → r.1 = st) ∧
-      (∀ o, r.2 = .ok o → o = out ∧ r.1.lookup n = some out ∧ ∀ n', n' ≠ n → r.1.lookup n' = st.lookup n') := by
-    intro b n
-    cases b
-    · simp only [Bool.false_eq_true, ↓reduceIte, reduceCtorEq, false_implies, implies_true, Except.ok.injEq, true_and]
-      intro o ho
-      exact ⟨ho.symm, lookup_set_self _ _ _, fun n' hn' => lookup_set_other _ _ _ _ hn'⟩
-    · simp
-  cases store with
-  | no => simp [commit, storeConfig]
-  | yes => exact key _ field
-  | name n => exact key _ n
-
 /-- **Stored-field names**: one `fld.transform(…, field=…, store=…)` call either fails and leaves every stored field
     as it was, or returns `out` and: `store=False` leaves the state untouched; `store=True` overwrites the source field;
     `store="name"` writes `out` under that name — in both cases every other stored field is unchanged. -/
@@ -713,5 +584,43 @@ theorem step_store (Φ Q : ℝ → ℝ) (c : Cfg ℝ) (reserved : List String) (
         refine ⟨hc.1, fun o ho => ?_⟩
         obtain ⟨rfl, hrest⟩ := hc.2 o ho
         exact hrest
+
+/-! ## non-vacuity of the probabilistic hypotheses -/
+
+/-- the probability space `((0,1), Lebesgue)` -/
+noncomputable def unitP : Measure ℝ := volume.restrict (Set.Ioo 0 1)
+
+instance : IsProbabilityMeasure unitP := ⟨by simp [unitP]⟩
+
+/-- **The hypotheses of the distributional theorems are satisfiable**: for any admissible `(Φ, Q)`, `m` and `s > 0`,
+    the variable `X(u) = m + s·Q(u)` on `((0,1), Lebesgue)` has the normal marginal `N(m, s²)` -/
+theorem normalMarginal_exists {Φ Q : ℝ → ℝ} (h : IsStdNormalCdf Φ Q) (m : ℝ) {s : ℝ} (hs : 0 < s) :
+    NormalMarginal unitP (fun u => m + s * Q u) Φ m s := by
+  intro x
+  set z := (x - m) / s with hz
+  have h0 := h.pos z
+  have h1 := h.lt_one z
+  have hset : {u : ℝ | m + s * Q u ≤ x} ∩ Set.Ioo 0 1 = Set.Ioc 0 (Φ z) := by
+    ext u
+    simp only [Set.mem_inter_iff, Set.mem_ofPred_eq, Set.mem_Ioo, Set.mem_Ioc]
+    constructor
+    · rintro ⟨hle, hu0, hu1⟩
+      refine ⟨hu0, ?_⟩
+      rw [← h.Q_le_iff hu0 hu1, hz, le_div_iff₀ hs]; linarith
+    · rintro ⟨hu0, hle⟩
+      have hu1 : u < 1 := lt_of_le_of_lt hle h1
+      refine ⟨?_, hu0, hu1⟩
+      have := (h.Q_le_iff hu0 hu1).mpr hle
+      rw [hz, le_div_iff₀ hs] at this; linarith
+  rw [measureReal_def, unitP, Measure.restrict_apply' measurableSet_Ioo, hset, Real.volume_Ioc]
+  simp [le_of_lt h0]
+
+/-- … and with the logistic pair `X` is measurable, so every hypothesis of `zinnharvey_marginal`, `equal_classes`,
+    `uniform_cdf`, … holds for a concrete object -/
+example (m : ℝ) {s : ℝ} (hs : 0 < s) :
+    IsStdNormalCdf (fun x => 1 / (1 + Real.exp (-x))) (fun p => Real.log (p / (1 - p))) ∧
+    NormalMarginal unitP (fun u => m + s * Real.log (u / (1 - u))) (fun x => 1 / (1 + Real.exp (-x))) m s ∧
+    Measurable (fun u : ℝ => m + s * Real.log (u / (1 - u))) :=
+  ⟨logistic_isStdNormalCdf, normalMarginal_exists logistic_isStdNormalCdf m hs, by fun_prop⟩
 
 end GSV.Props.C19
